@@ -53,7 +53,7 @@ def main():
         import re
         text = open(demo).read()
         # demos written by sub-agents may assert the path of the worktree they were written in
-        text2 = re.sub(r'/tmp/mut-C\d\d', scratch, text)
+        text2 = re.sub(r'/tmp/mut\d*-C\d\d', scratch, text)
         if text2 != text:
             meta['demo_note'] = ('demo.py hard-codes its original worktree path (/tmp/mut-Cxx) in an import-location '
                                  'assertion; seed_eval substitutes the scratch worktree path before running it')
